@@ -3,3 +3,4 @@ uint32_t g_crc;
 size_t g_crc_n;
 const uint8_t * g_crc_base;
 size_t g_crc_t;
+int g_crc_tables_ok;
